@@ -17,6 +17,11 @@
 (* mode "rt"   : like "exact" but for records whose tokens contain double      *)
 (*               quotes (csv quoting is not part of the wire model): only     *)
 (*               parsed = written is demanded;                                *)
+(* mode "rtc"  : a.base are the bytes of an earlier write, a.bytes the same    *)
+(*               with COMMENT LINES inserted (first byte '#', arbitrary       *)
+(*               content incl. TAB and unbalanced double quotes): the spec    *)
+(*               checks that the two differ by comment lines only and demands *)
+(*               parsed = written ("comment lines are skipped");              *)
 (* mode "safe" : bytes were corrupted / hand-made inside the modelled        *)
 (*               alphabet (no double quote, no CR): the result must equal    *)
 (*               the reference parser line by line (Ok with these fields /   *)
@@ -124,6 +129,14 @@ Explains(fam, cfg, evs, k) ==
                 [] c.a.mode = "rt" ->
                      LET w == PrevWrite(evs, k, c.a.bytes) IN
                      /\ w # 0
+                     /\ Len(r.recs) = Len(evs[w].c.a.recs)
+                     /\ \A i \in 1..Len(r.recs) :
+                          IF fam = "gff" THEN GffRoundTrip(r.recs[i], evs[w].c.a.recs[i])
+                                         ELSE BedRoundTrip(r.recs[i], evs[w].c.a.recs[i])
+                [] c.a.mode = "rtc" ->
+                     LET w == PrevWrite(evs, k, c.a.base) IN
+                     /\ w # 0
+                     /\ RecordLines(c.a.bytes) = RecordLines(c.a.base)        \* only comment lines were added
                      /\ Len(r.recs) = Len(evs[w].c.a.recs)
                      /\ \A i \in 1..Len(r.recs) :
                           IF fam = "gff" THEN GffRoundTrip(r.recs[i], evs[w].c.a.recs[i])
